@@ -13,6 +13,18 @@ package smpp34
 //@   theory T1
 //@   layout dec
 
+//@ func (b *Bind) GetCommand
+//@   layout cmd
+
+//@ func (b *Bind) GenEmptyResponse
+//@   layout resp
+
+//@ func (b *Bind) SetSequenceID
+//@   layout setseq
+
+//@ func (b *Bind) GetSequenceID
+//@   layout getseq
+
 //@ func (b *BindResp) IEncode
 //@   theory T1
 //@   layout enc
@@ -20,6 +32,18 @@ package smpp34
 //@ func (b *BindResp) IDecode
 //@   theory T1
 //@   layout dec
+
+//@ func (b *BindResp) GetCommand
+//@   layout cmd
+
+//@ func (b *BindResp) GenEmptyResponse
+//@   layout resp
+
+//@ func (b *BindResp) SetSequenceID
+//@   layout setseq
+
+//@ func (b *BindResp) GetSequenceID
+//@   layout getseq
 
 //@ func (u *Unbind) IEncode
 //@   theory T1
@@ -29,6 +53,18 @@ package smpp34
 //@   theory T1
 //@   layout dec
 
+//@ func (u *Unbind) GetCommand
+//@   layout cmd
+
+//@ func (u *Unbind) GenEmptyResponse
+//@   layout resp
+
+//@ func (u *Unbind) SetSequenceID
+//@   layout setseq
+
+//@ func (u *Unbind) GetSequenceID
+//@   layout getseq
+
 //@ func (u *UnBindResp) IEncode
 //@   theory T1
 //@   layout enc
@@ -36,6 +72,18 @@ package smpp34
 //@ func (u *UnBindResp) IDecode
 //@   theory T1
 //@   layout dec
+
+//@ func (u *UnBindResp) GetCommand
+//@   layout cmd
+
+//@ func (u *UnBindResp) GenEmptyResponse
+//@   layout resp
+
+//@ func (u *UnBindResp) SetSequenceID
+//@   layout setseq
+
+//@ func (u *UnBindResp) GetSequenceID
+//@   layout getseq
 
 //@ func (g *GenericNack) IEncode
 //@   theory T1
@@ -45,6 +93,18 @@ package smpp34
 //@   theory T1
 //@   layout dec
 
+//@ func (g *GenericNack) GetCommand
+//@   layout cmd
+
+//@ func (g *GenericNack) GenEmptyResponse
+//@   layout resp
+
+//@ func (g *GenericNack) SetSequenceID
+//@   layout setseq
+
+//@ func (g *GenericNack) GetSequenceID
+//@   layout getseq
+
 //@ func (s *SubmitSm) IEncode
 //@   theory T1
 //@   layout enc
@@ -52,6 +112,18 @@ package smpp34
 //@ func (s *SubmitSm) IDecode
 //@   theory T1
 //@   layout dec
+
+//@ func (s *SubmitSm) GetCommand
+//@   layout cmd
+
+//@ func (s *SubmitSm) GenEmptyResponse
+//@   layout resp
+
+//@ func (s *SubmitSm) SetSequenceID
+//@   layout setseq
+
+//@ func (s *SubmitSm) GetSequenceID
+//@   layout getseq
 
 //@ func (s *SubmitSmResp) IEncode
 //@   theory T1
@@ -61,6 +133,18 @@ package smpp34
 //@   theory T1
 //@   layout dec
 
+//@ func (s *SubmitSmResp) GetCommand
+//@   layout cmd
+
+//@ func (s *SubmitSmResp) GenEmptyResponse
+//@   layout resp
+
+//@ func (s *SubmitSmResp) SetSequenceID
+//@   layout setseq
+
+//@ func (s *SubmitSmResp) GetSequenceID
+//@   layout getseq
+
 //@ func (d *DeliverSm) IEncode
 //@   theory T1
 //@   layout enc
@@ -68,6 +152,18 @@ package smpp34
 //@ func (d *DeliverSm) IDecode
 //@   theory T1
 //@   layout dec
+
+//@ func (d *DeliverSm) GetCommand
+//@   layout cmd
+
+//@ func (d *DeliverSm) GenEmptyResponse
+//@   layout resp
+
+//@ func (d *DeliverSm) SetSequenceID
+//@   layout setseq
+
+//@ func (d *DeliverSm) GetSequenceID
+//@   layout getseq
 
 //@ func (d *DeliverSmResp) IEncode
 //@   theory T1
@@ -77,6 +173,18 @@ package smpp34
 //@   theory T1
 //@   layout dec
 
+//@ func (d *DeliverSmResp) GetCommand
+//@   layout cmd
+
+//@ func (d *DeliverSmResp) GenEmptyResponse
+//@   layout resp
+
+//@ func (d *DeliverSmResp) SetSequenceID
+//@   layout setseq
+
+//@ func (d *DeliverSmResp) GetSequenceID
+//@   layout getseq
+
 //@ func (e *EnquireLink) IEncode
 //@   theory T1
 //@   layout enc
@@ -85,6 +193,18 @@ package smpp34
 //@   theory T1
 //@   layout dec
 
+//@ func (e *EnquireLink) GetCommand
+//@   layout cmd
+
+//@ func (e *EnquireLink) GenEmptyResponse
+//@   layout resp
+
+//@ func (e *EnquireLink) SetSequenceID
+//@   layout setseq
+
+//@ func (e *EnquireLink) GetSequenceID
+//@   layout getseq
+
 //@ func (e *EnquireLinkResp) IEncode
 //@   theory T1
 //@   layout enc
@@ -92,5 +212,20 @@ package smpp34
 //@ func (e *EnquireLinkResp) IDecode
 //@   theory T1
 //@   layout dec
+
+//@ func (e *EnquireLinkResp) GetCommand
+//@   layout cmd
+
+//@ func (e *EnquireLinkResp) GenEmptyResponse
+//@   layout resp
+
+//@ func (e *EnquireLinkResp) SetSequenceID
+//@   layout setseq
+
+//@ func (e *EnquireLinkResp) GetSequenceID
+//@   layout getseq
+
+//@ func DecodeSMPP34
+//@   layout dispatch
 
 // ---- hand-written below ----
